@@ -564,6 +564,9 @@ class Extract:
         self.loop_expect = {}
         self.lift = None
         self.lift_async = None
+        self.lift_stmt = None
+        self.lift_stmt_sig = None
+        self.lift_stmt_tail = None
         self.lifted_contract = []
         self.novac = False
         self.derive = None
@@ -699,6 +702,13 @@ def parse_template(path):
             elif key.startswith('lift-async '):
                 m = re.match(r'lift-async (\d+) as (.*)$', d)
                 cur.lift_async = (int(m.group(1)), m.group(2))
+            elif key == 'lift-stmt':
+                # R6c: the block statement (for/while/loop/if .. { }) that starts at the unique occurrence of this literal
+                cur.lift_stmt = val
+            elif key == 'lift-stmt-as':
+                cur.lift_stmt_sig = val
+            elif key == 'lift-stmt-tail':
+                cur.lift_stmt_tail = val
             elif key == 'lifted-contract':
                 cur.lifted_contract = []
                 target = cur.lifted_contract
@@ -838,6 +848,60 @@ def render_extract(ex, vac=False, strip_proof=False):
         if vac:
             header = ('async fn ' if lift_is_async else 'fn ') + sig.replace(name, name + '__vac', 1)
         body = inner
+        ex = __import__('copy').copy(ex)
+        ex.ret = None
+        ex.rename = None
+    if ex.lift_stmt is not None:
+        # R6c: lift one block statement of an out-of-reach function into a fn of its own: the statement text is taken
+        # verbatim from the unique occurrence of the literal up to the brace closing its (last) block; the variables it
+        # uses become the parameters listed in lift-stmt-as; `lift-stmt-tail` is the value the lifted fn returns when the
+        # statement completes normally (a `?` / `return` inside it leaves the enclosing function, hence the lifted one)
+        if not ex.lift_stmt_sig:
+            raise Undecided('lift-stmt without lift-stmt-as')
+        lit = ex.lift_stmt
+        if body.count(lit) != 1:
+            raise Undecided('lift-stmt: literal %r occurs %d times' % (lit, body.count(lit)))
+        p0 = body.index(lit)
+        toks = tokenize(body)
+        i0 = None
+        for i_, t_ in enumerate(toks):
+            if t_[2] == p0:
+                i0 = i_
+                break
+        if i0 is None or toks[i0][1] not in ('for', 'while', 'loop', 'if'):
+            raise Undecided('lift-stmt: literal does not start a for/while/loop/if statement')
+        kw = toks[i0][1]
+        j_ = i0 + 1
+        end = None
+        while j_ < len(toks):
+            t_ = toks[j_]
+            if t_[0] == 'p' and t_[1] in ('(', '['):
+                j_ = match_close(toks, j_) + 1
+                continue
+            if t_[0] == 'p' and t_[1] == '{':
+                c_ = match_close(toks, j_)
+                end = c_
+                # `if .. {} else {}` / `else if`: continue over else branches
+                n_ = nontrivia(toks, c_)
+                if kw == 'if' and n_ < len(toks) and toks[n_][1] == 'else':
+                    j_ = n_ + 1
+                    continue
+                break
+            j_ += 1
+        if end is None:
+            raise Undecided('lift-stmt: no block found after the literal')
+        stmt = body[toks[i0][2]:toks[end][3]]
+        sig = ex.lift_stmt_sig
+        stmt_is_async = sig.lstrip().startswith('async ')
+        if stmt_is_async:
+            sig = sig.lstrip()[len('async '):]
+        m_ = re.match(r'\s*([A-Za-z_][A-Za-z0-9_]*)', sig)
+        log.append({'rule': 'R6c', 'lifted_statement': lit, 'of': name, 'as': ex.lift_stmt_sig, 'tail': ex.lift_stmt_tail,
+                    'statement_sha256': hashlib.sha256(stmt.encode()).hexdigest()[:16],
+                    'note': 'the rest of the enclosing function is not part of the verified text'})
+        name = m_.group(1)
+        header = ('async fn ' if stmt_is_async else 'fn ') + (sig.replace(name, name + '__vac', 1) if vac else sig)
+        body = '{\n        ' + stmt + '\n        ' + (ex.lift_stmt_tail or '') + '\n    }'
         ex = __import__('copy').copy(ex)
         ex.ret = None
         ex.rename = None
